@@ -391,7 +391,7 @@ func (h *hist) exec(op Sx, r *rec) {
 }
 
 func run(in Sx) Sx {
-	if in.Len() == 3 && in.At(1).Kind == 'i' { // (3 trials seed): a sweep racing a response and a new call
+	if in.Len() == 3 && in.At(1).Kind == 'i' && in.At(0).AsInt() == 3 { // (3 trials seed): a sweep racing a response and a new call
 		code, what := sweepRace(in.At(1).AsInt(), in.At(2).Uint64())
 		return List(Int(-4), Int(code), Str(what))
 	}
@@ -400,8 +400,16 @@ func run(in Sx) Sx {
 		return List(Int(-3), Int(code), Str(what))
 	}
 	if in.Len() == 1 { // (c0): the full-table scenario, evaluated on the Go side
-		code, what := fullTable(uint16(in.At(0).Uint64()))
+		code, what := watched(func() (int64, string) { return fullTable(uint16(in.At(0).Uint64())) },
+			"the refused call's callback re-entered the client and never came back: the refusal is delivered under the client's mutex (goroutine dump: parked in sync.Mutex.Lock called from the client, nobody else can hold it)")
+		if code == 11 {
+			return List(Int(-2), Int(code), Str(what))
+		}
 		return List(Int(-2), Int(code), Str(what))
+	}
+	if in.Len() == 3 && in.At(1).Kind == 'i' && in.At(0).AsInt() == 6 { // (6 n seed): time-to-live at sub-second resolution
+		code, what := ttlEdges(in.At(1).AsInt(), in.At(2).Uint64())
+		return List(Int(-5), Int(code), Str(what))
 	}
 	qsize := 16
 	if in.Len() == 3 { // (c0 ops q): request queue of capacity q (0 = a call waits in makeCall until its request is taken)
@@ -749,6 +757,122 @@ func genWrapTimedOut(rng *Rng) Sx {
 	return List(Uint(uint64(c0)), ListOf(ops))
 }
 
+// watched runs a single-goroutine Go-side scenario and watches it: a goroutine parked in
+// sync.Mutex.Lock called from the client, in a scenario that has no other goroutine, holds that
+// mutex itself and will never move (code 11); code 9 = neither finished nor parked within 120 s.
+func watched(f func() (int64, string), stuckWhat string) (int64, string) {
+	type res struct {
+		code int64
+		what string
+	}
+	done := make(chan res, 1)
+	var gid int32
+	go func() {
+		atomic.StoreInt32(&gid, int32(Goid()))
+		c, w := f()
+		done <- res{c, w}
+	}()
+	deadline := time.Now().Add(120 * time.Second)
+	pause := time.Millisecond
+	for {
+		select {
+		case r := <-done:
+			return r.code, r.what
+		case <-time.After(pause):
+		}
+		if pause < 50*time.Millisecond {
+			pause *= 2
+		}
+		if time.Now().After(deadline) {
+			return 9, "the scenario neither finished nor came to rest"
+		}
+		g := GDump()[int(atomic.LoadInt32(&gid))]
+		if g != nil && g.State == "sync.Mutex.Lock" && lockCalledByClient(g.Text) {
+			// look twice: the state must be the same 20 ms later
+			time.Sleep(20 * time.Millisecond)
+			g2 := GDump()[int(atomic.LoadInt32(&gid))]
+			if g2 != nil && g2.State == "sync.Mutex.Lock" && g2.Text == g.Text {
+				return 11, stuckWhat
+			}
+		}
+	}
+}
+
+// ttlEdges: the time-to-live is one minute, to the nanosecond.  Calls are issued at chosen
+// sub-second phases of the wall clock (.0 .35 .65 .999); t0 / t1 are read just before / after the
+// call, so the deadline makeCall computed lies in [t0+60s, t1+60s].  A sweep at t0+60s-eps (eps from
+// 1 ns to 0.999 s) and at exactly t0+60s must leave the call alone (and its response then completes
+// it); a sweep at t1+60s+eps must expire it.  The deadline itself is also read back (VerifDeadline).
+// returns 0 ok | 5 expired before its time-to-live was over / not expired after it | 3 in-time response rejected | 7 other
+func ttlEdges(n int, seed uint64) (int64, string) {
+	phases := []time.Duration{0, 350 * time.Millisecond, 650 * time.Millisecond, 999 * time.Millisecond}
+	eps := []time.Duration{1, time.Millisecond, 300 * time.Millisecond, 700 * time.Millisecond, 999 * time.Millisecond}
+	type res struct {
+		code int64
+		what string
+	}
+	out := make(chan res, len(phases))
+	for pi, ph := range phases {
+		go func(pi int, ph time.Duration) {
+			cli := qnet.NewRpcClient(context.Background(), 8)
+			cli.VerifSetCounter(uint16(seed) + uint16(1000*pi))
+			// wait for the wall clock to stand at the phase
+			now := time.Now()
+			wait := ph - time.Duration(now.Nanosecond())
+			if wait < 0 {
+				wait += time.Second
+			}
+			time.Sleep(wait)
+			for k := 0; k < n; k++ {
+				var count, gotCode int32
+				t0 := time.Now()
+				cli.AsyncCall(node, wrapperspb.String("q"), func(m proto.Message, code int32) error {
+					atomic.AddInt32(&count, 1)
+					atomic.StoreInt32(&gotCode, code)
+					return nil
+				})
+				t1 := time.Now()
+				p := <-cli.PendingQueue()
+				seq := p.Seq()
+				where := "call issued at wall-clock phase ." + strconv.Itoa(t0.Nanosecond()/1000000) + ": "
+				atomic.AddInt64(&fullChecked, 1)
+				if d, ok := cli.VerifDeadline(seq); !ok || d.Before(t0.Add(time.Minute)) || d.After(t1.Add(time.Minute)) {
+					out <- res{5, where + "its deadline is not issue instant + 60 s (off by " + d.Sub(t0.Add(time.Minute)).String() + ")"}
+					return
+				}
+				for _, e := range append(eps, 0) {
+					cli.VerifSweep(t0.Add(time.Minute - e))
+					if _, exp := cli.VerifPending(); exp != 0 || cli.ReapTimeout() != 0 || atomic.LoadInt32(&count) != 0 {
+						out <- res{5, where + "expired by a sweep " + e.String() + " BEFORE its time-to-live of 60 s was over"}
+						return
+					}
+				}
+				if k%2 == 0 { // the response arrives in time
+					body, _ := proto.Marshal(wrapperspb.String("r1"))
+					if err := cli.Dispatch(packet.New(msgID, seq, fatchoy.PFlagRpc, body)); err != nil || atomic.LoadInt32(&count) != 1 || atomic.LoadInt32(&gotCode) != 0 {
+						out <- res{3, where + "the response arriving within the time-to-live was not delivered"}
+						return
+					}
+					continue
+				}
+				cli.VerifSweep(t1.Add(time.Minute + eps[k%len(eps)]))
+				if n := cli.ReapTimeout(); n != 1 || atomic.LoadInt32(&count) != 1 || atomic.LoadInt32(&gotCode) != int32(codes.RequestTimeout) {
+					out <- res{5, where + "not completed once with RequestTimeout by a sweep after its time-to-live"}
+					return
+				}
+			}
+			out <- res{0, ""}
+		}(pi, ph)
+	}
+	r := res{}
+	for range phases {
+		if x := <-out; x.code != 0 && r.code == 0 {
+			r = x
+		}
+	}
+	return r.code, r.what
+}
+
 // every sequence number outstanding: checked on the Go side only (a 65535-entry table is
 // beyond what the association-list model evaluates in reasonable time)
 func fullTable(c0 uint16) (code int64, what string) {
@@ -783,9 +907,22 @@ func fullTable(c0 uint16) (code int64, what string) {
 		}
 		seen[p.Seq()] = i
 	}
-	// all 65535 numbers are taken: one more call cannot get one
-	cli.AsyncCall(node, wrapperspb.String("q"), cb(65535))
+	// all 65535 numbers are taken: one more call cannot get one.  Its completion callback re-enters
+	// the client the way callbacks do (looks at the table, retries the call, dispatches, reaps): the
+	// refusal must be delivered like every other completion, outside the client's mutex
+	cli.AsyncCall(node, wrapperspb.String("q"), func(msg proto.Message, code int32) error {
+		completions[65535]++
+		codesSeen[65535] = code
+		cli.VerifPending()
+		cli.AsyncCall(node, wrapperspb.String("q"), cb(65540)) // the retry: refused as well
+		cli.Dispatch(packet.New(msgID, 0, fatchoy.PFlagRpc, nil)) // number 0 is never outstanding
+		cli.ReapTimeout()
+		return nil
+	})
 	checked++
+	if completions[65540] != 1 || codesSeen[65540] != int32(codes.ResourceExhausted) {
+		return 5, "table full: the retry issued from the refused call's callback was not completed once with ResourceExhausted"
+	}
 	select {
 	case p := <-cli.PendingQueue():
 		return 4, "table full, yet the call was queued with the busy sequence number " + strconv.Itoa(int(p.Seq()))
@@ -1195,6 +1332,10 @@ func gen(a Args, out *Out) {
 		out.Case("sweeprace", true, in, run(in))
 	}
 	out.CountN("sweeprace:call B was given A's number", int(atomic.LoadInt64(&sweepRaceReused)))
+	for i := 0; i < nfull; i++ {
+		in := Ints(6, 6, int64(r7.Intn(1<<30)))
+		out.Case("ttl", true, in, run(in))
+	}
 	r4 := rng.Fork()
 	for i := 0; i < nstress; i++ {
 		in := Ints(2, int64(r4.Range(2, 8)), int64(r4.Range(5, 120)), int64(r4.Intn(1<<30)))
